@@ -707,12 +707,14 @@ def run(ctx):
       for f in run_case(ctx, case):
         ctx.fail(f[0], f[1], case, f[2])
   ctx.info["deterministic_cases"] = n_det
+  ctx.info["t_deterministic_s"] = round(ctx.budget_s - ctx.time_left(), 1)
 
   def orc(case):
     return run_case(ctx, case, extra=("hyp",))
 
   n = (4000 if ctx.quick else 150000) // ctx.n + 1
   core.hyp_run(ctx, case_strategy(st_), orc, n, name="c17")
+  ctx.info["t_total_s"] = round(ctx.budget_s - ctx.time_left(), 1)
 
 
 def replay(ctx, case):
